@@ -13,7 +13,8 @@ pub struct C18;
 struct Tab { cols: Vec<(String, String)>, rows: Vec<Vec<CVal>> }
 
 fn cell(kind: &str, v: u64) -> CVal {
-  match kind { "u8" => sc_u("u8", v as u128), "u64" => sc_u("u64", v as u128), "f64" => sc_f64(v as f64 + 0.5), "string" => sc_s(&format!("s{}", v)), _ => sc_b(v % 2 == 1) }
+  match kind { "f64" => sc_f64(v as f64 + 0.5), "f32" => sc_f32(v as f32 + 0.5), "string" => sc_s(&format!("s{}", v)), "bool" => sc_b(v % 2 == 1),
+    k if k.starts_with('u') => sc_u(k, v as u128), k if k.starts_with('i') => sc_i(k, v as i128), _ => sc_b(v % 2 == 1) }
 }
 fn lit_cell(c: &CVal) -> String { lit(c).unwrap_or_else(|| "_".into()) }
 
@@ -88,7 +89,8 @@ impl Prop for C18 {
   fn gen(&self, tier: Tier, seed: u64) -> Vec<Case> {
     let mut out = Vec::new();
     let n = if tier == Tier::Quick { 200 } else { 2500 };
-    let all_kinds = ["u8", "u64", "f64", "string", "bool"];
+    // (every scalar kind a table column can be declared with: the join and selection kernels copy columns with one arm per kind)
+    let all_kinds = ["u8", "u64", "f64", "string", "bool", "u16", "u32", "u128", "i8", "i16", "i32", "i64", "i128", "f32"];
     for i in 0..n {
       let mut rng = Rng::keyed(seed, &format!("c18{}", i));
       let nshared = rng.below(3) as usize;
